@@ -865,8 +865,16 @@ pub fn scenarios(prop: &str, tier: &str) -> Vec<Cfg> {
                         // (stale queue entries inside the adapter's set)
                         let mut w2 = c.clone();
                         w2.name = format!("{} (self-waking completers)", w2.name);
-                        w2.up_modes = [Mode::Gate, Mode::WakeReady];
+                        w2.up_modes = [Mode::Gate, Mode::WakeReady, Mode::WakeReady];
                         v.push(w2);
+                    }
+                    if n >= 2 && len == n + 4 {
+                        // one kind of future panics in its first poll: the unwinding leaves the adapter in the
+                        // middle of a poll, the caller catches it and goes on polling
+                        let mut w3 = c.clone();
+                        w3.name = format!("{} (panicking futures among them)", w3.name);
+                        w3.up_modes = [Mode::Gate, Mode::Ready, Mode::PanicOnce];
+                        v.push(w3);
                     }
                     v.push(c);
                 }
@@ -1034,6 +1042,7 @@ pub fn scenarios(prop: &str, tier: &str) -> Vec<Cfg> {
                 Omega,
                 YieldInf,
                 Ready,
+                Ring,
             }
             let add = |k: Kind, n: usize, pos: usize, pop: Pop, v: &mut Vec<Cfg>| {
                 let mut c = Cfg::new("C13", k);
@@ -1041,10 +1050,11 @@ pub fn scenarios(prop: &str, tier: &str) -> Vec<Cfg> {
                     Pop::Omega => (s("w"), s("P")),
                     Pop::YieldInf => (f(Mode::YieldInf), f(Mode::Gate)),
                     Pop::Ready => (f(Mode::Ready), f(Mode::Gate)),
+                    Pop::Ring => (f(Mode::Ring), f(Mode::Gate)),
                 };
                 let mut pre: Vec<ChildSpec> = (0..n).map(|_| p.clone()).collect();
                 pre.insert(pos, vic);
-                c.name = format!("{:?} population {}x{} victim at {}", k, n, match pop { Pop::Omega => "Iω", Pop::YieldInf => "YieldInf", Pop::Ready => "Ready" }, pos);
+                c.name = format!("{:?} population {}x{} victim at {}", k, n, match pop { Pop::Omega => "Iω", Pop::YieldInf => "YieldInf", Pop::Ready => "Ready", Pop::Ring => "Ring (children that wake each other, never themselves)" }, pos);
                 c.prefill = pre;
                 c.dormant = true;
                 c.ops = ops::POLL | ops::POLL_NEW | ops::UNLEASH | ops::COMPLETE;
@@ -1064,7 +1074,10 @@ pub fn scenarios(prop: &str, tier: &str) -> Vec<Cfg> {
                 for &pos in &positions {
                     add(Kind::Mu(n + 1), n, pos, Pop::Omega, &mut v);
                     add(Kind::Mb(n + 1), n, pos, Pop::Omega, &mut v);
-                    for pop in [Pop::YieldInf, Pop::Ready] {
+                    for pop in [Pop::YieldInf, Pop::Ready, Pop::Ring] {
+                        if pop == Pop::Ring && n < 2 {
+                            continue;
+                        }
                         add(Kind::FuNew, n, pos, pop, &mut v);
                         add(Kind::FubIter(n + 1), n, pos, pop, &mut v);
                         if n <= 33 {
@@ -1125,7 +1138,7 @@ pub fn scenarios(prop: &str, tier: &str) -> Vec<Cfg> {
             // adapters: the population comes from upstream (self-waking futures), the victim is a gate
             for k in [Kind::Bu(3), Kind::Bo(3), Kind::Tbu(3), Kind::Fec(3), Kind::Bu(2)] {
                 let mut c = adapter_cfg("C13", k, 3, HintShape::Exact, d + 1, 3);
-                c.up_modes = [Mode::YieldInf, Mode::Gate];
+                c.up_modes = [Mode::YieldInf, Mode::Gate, Mode::Gate];
                 c.dormant = true;
                 c.ops |= ops::UNLEASH;
                 c.epilogue = Epilogue::Starve;
@@ -1350,6 +1363,62 @@ pub fn scenarios(prop: &str, tier: &str) -> Vec<Cfg> {
             v.push(c);
         }
     }
+    // Every free-form scenario gets the whole API surface and the whole environment, whatever the
+    // property: refused and panicking pushes, `extend`, a task waker that changes between polls, and
+    // a child wake that lands while the task waker is being registered. They are deviations (they
+    // share the scenario's budget; a scenario without a budget gets one deviation), so the histories
+    // explored before are a subset of the histories explored now.
+    // (where that is too expensive for the quick tier, the augmented alphabet runs one level shallower
+    // next to the original scenario)
+    let cut: usize = match (prop, thorough) {
+        ("C15", false) | ("C02", false) => 1,
+        _ => 0,
+    };
+    let mut shallow: Vec<Cfg> = vec![];
+    for c in v.iter_mut() {
+        if c.prefill.len() > 8 || c.dormant || c.ops & ops::POLL == 0 {
+            continue;
+        }
+        let original = c.clone();
+        let mut extra = 0u32;
+        extra |= ops::POLL_NEW;
+        if !c.kind.is_join() && c.ops & ops::POLL_HOOK == 0 {
+            extra |= ops::POLL_HOOK;
+            if !thorough {
+                c.hook_max = 2;
+            }
+        }
+        if c.ops & ops::PUSH != 0 && !c.specs.is_empty() && (c.kind.is_collection() || c.kind.is_merge()) {
+            if c.kind.bound().is_some() {
+                extra |= ops::PUSH_WHEN_FULL;
+                if c.prop != "C18" {
+                    // (a push that panics allocates the panic payload: the panic runtime's allocation, not the crate's)
+                    extra |= ops::PANIC_PUSH;
+                }
+            }
+            if c.kind.is_ordered() {
+                extra |= ops::EXTEND | ops::EXTEND_EMPTY;
+            }
+        }
+        let added = extra & !c.ops;
+        if added == 0 {
+            continue;
+        }
+        if c.costly == 0 {
+            // no deviation classes so far: everything was free, the additions get a budget of their own
+            c.delta = if thorough { 2 } else { 1 };
+        }
+        c.ops |= added;
+        c.costly |= added;
+        if cut > 0 && c.depth > cut + 2 {
+            let mut a = c.clone();
+            a.depth -= cut;
+            a.name = format!("{} <full alphabet>", a.name);
+            shallow.push(a);
+            *c = original;
+        }
+    }
+    v.extend(shallow);
     // every scenario built by a from_iter-style constructor is also run with an inexact size hint
     let mut extra = vec![];
     for c in &v {
